@@ -10,3 +10,9 @@ func (s *Scheduler) VerifSetClock(c mockable.Clock) {
 	defer s.stepMu.Unlock()
 	s.clock = c
 }
+
+// VerifQueueLen reports the result queue: events waiting to be delivered and reservations not yet resolved.
+// Verification builds only.
+func (s *Scheduler) VerifQueueLen() (inQueue, reserved int) {
+	return s.eventQueue.Len()
+}
